@@ -50,6 +50,11 @@ def _solve_shift(res, cfg, mod, msh, disc, f, fs, k, name, directives):
         # a trajectory on its way out of the admissible set (centered flux, rough data): whether a NaN appears at this or
         # the next iteration is decided by round-off, which the shift permutes
         res.count('skipped-nan'); return 'skipped'
+    big0 = max(float(np.max(np.abs(d))) for d in f.data) + 1e-300
+    if max(float(np.max(np.abs(d))) for d in list(a.data) + list(b_.data)) > 1e6 * big0:
+        # a run that blows up without reaching NaN within 4 iterations (sign-changing Burgers data with per-cell steps dx/|u| -> huge
+        # steps next to u = 0): its digits are decided by round-off, which the shift permutes - as for the NaN runs above
+        res.count('skipped-blow-up'); return 'skipped'
     for q in range(mod.neq):
         sc = float(np.max(np.abs(a.data[q]))) + 1e-300
         tol = 1e-11 if name not in IMPL else 1e-7
